@@ -116,14 +116,14 @@ class W:
         self.mnet.add_node(self.remote)
         rm = self.remote.rpdo[1]
         rm.cob_id = 0x200 + self.nid
-        rm.enabled = True
+        rm.enabled = ctx.choice(3, "rpdo-enabled") != 0
         rm.add_variable(0x2000)
         rm.add_variable(0x2001)
         rm.add_variable(0x2002)
         self.rmap = rm
         m = self.local.tpdo[1]
         m.cob_id = 0x180 + self.nid
-        m.enabled = True
+        m.enabled = ctx.choice(3, "tpdo-enabled") != 0     # start() does not look at the flag
         m.add_variable(0x2000)
         m.add_variable(0x2003, 0, 1)    # a 1-bit field: everything behind it is off the byte boundary
         m.add_variable(0x2001)
